@@ -52,7 +52,7 @@ def r1_numbering(R) -> None:
     if '?' in order:
         raise Unknown(f'{BFD}: which kinds of names are numbered, in which order, was not read (read as {order}): the name lists are built in a form this rule does not model')
     R.check(order == ['ENDOGENOUS', 'EXOGENOUS', 'PARAMETER', 'ERROR'], BFD, f'numbering-order:{order}',
-            'numbering follows NAMES = ENDOGENOUS + EXOGENOUS + PARAMETERS + ERRORS', f'variables are numbered in the order {order}', where=f.where(ds[0]))
+            'numbering follows NAMES = ENDOGENOUS + EXOGENOUS + PARAMETERS + ERRORS', f'variables are numbered in the order {order}', where=f.where(ds[0]), decided=True)
     tg = [x.id for x in ast.walk(dc.generators[0].target) if isinstance(x, ast.Name)]
     R.check(len(tg) == 2 and text(dc.key) == tg[1] and text(dc.value) == tg[0], BFD, 'numbering-map', 'the map is name -> number', f'`{text(dc)[:60]}`', where=f.where(ds[0]))
     # name lists / lags / leads twin
@@ -686,6 +686,12 @@ def r6_equation_rewrite(R) -> None:
     path_fns = [top.fi] + [g_ for g_ in callees_of(R.repo, top.fi) if g_.module.name == 'fsic.fortran' and g_.cls is None]
     for g_ in path_fns:
         ws = global_writes(g_, mod_names)
+        from rules import memo as _memo
+        for w in list(ws):
+            lab = _memo.owned(R.repo, w)
+            if lab is not None:
+                R.ok(g_.qualname, f'`{text(w)[:50]}` fills the cache `{lab}`: whether its key is complete is decided by rule C07.M')
+                ws.remove(w)
         for w in ws:
             R.violation(g_.qualname, 'generation-state:' + text(w)[:60], f'`{text(w)[:70]}` writes module-level state on the code-generation path: what is generated for one '
                         f'model can depend on the models built before it (e.g. a cache keyed by the equation text alone reuses another model\'s variable numbers)',
